@@ -123,11 +123,15 @@ def matchTSV (s : List Char) : Option (List Char × List Char) :=
 /-- the characters of a JSON string literal up to its closing quote: (content, rest after the quote) -/
 def jsonUnescape : List Char → Option (List Char × List Char)
   | [] => none
-  | '"' :: rest => some ([], rest)
-  | '\\' :: '"' :: rest => (jsonUnescape rest).map (fun p => ('"' :: p.1, p.2))
-  | '\\' :: '\\' :: rest => (jsonUnescape rest).map (fun p => ('\\' :: p.1, p.2))
-  | '\\' :: _ => none
-  | c :: rest => if c.toNat < 32 then none else (jsonUnescape rest).map (fun p => (c :: p.1, p.2))
+  | c :: rest =>
+    if c = '"' then some ([], rest)
+    else if c = '\\' then
+      match rest with
+      | [] => none
+      | d :: rest' =>
+        if d = '"' ∨ d = '\\' then (jsonUnescape rest').map (fun p => (d :: p.1, p.2)) else none
+    else if c.toNat < 32 then none
+    else (jsonUnescape rest).map (fun p => (c :: p.1, p.2))
 
 /-- a JSON integer literal `-?(0|[1-9][0-9]*)` at the head of `s` -/
 def takeJsonInt (s : List Char) : Option (Int × List Char) :=
